@@ -361,6 +361,8 @@ def _work(idxs):
             M = asmx.Machine(P, max_visits=p.max_visits, extern_ret=p.extern_ret)
             M.inline = p.inline
             M.stop_after = getattr(p, "stop_after", {})
+            if hasattr(p, "assumptions"):
+                M.assumes.extend(p.assumptions(M))      # input preconditions: prune infeasible paths while exploring
             finals = M.run(p.fn, init=lambda s: p.init(M, s))
             res["paths"] = len(finals)
             res["insns"] = sum(M.insn_count.values())
